@@ -3,7 +3,10 @@ package serializer
 
 import (
 	"bytes"
+	"encoding/binary"
+	"math"
 	"math/big"
+	"time"
 
 	"verifrt"
 )
@@ -248,7 +251,7 @@ func H_C02_deserializer() {
 	d := NewDeserializer(src)
 	d.offset = verifrt.Choose("offset", len(src)+1) // arbitrary position inside the buffer (Appendix A.10)
 	start := d.offset
-	kind := verifrt.Choose("reader", 11)
+	kind := verifrt.Choose("reader", 16)
 	p := c01Prefixes[verifrt.Choose("prefix", 3)]
 	minLen, maxLen := verifrt.Choose("min", 2), verifrt.Choose("max", 3)
 	items := 0
@@ -288,6 +291,17 @@ func H_C02_deserializer() {
 			d.ReadUint256(&o, c01Err)
 		case 9:
 			d.Skip(verifrt.Choose("n", 4), c01Err)
+		case 11:
+			_, _ = d.GetObjectType([]TypeDenotationType{TypeDenotationUint32, TypeDenotationByte, TypeDenotationNone}[verifrt.Choose("den", 3)])
+		case 12:
+			var o time.Time
+			d.ReadTime(&o, c01Err)
+		case 13:
+			_, _ = d.ReadPayloadLength()
+		case 14:
+			d.CheckTypePrefix(uint32(verifrt.U8("want")), []TypeDenotationType{TypeDenotationUint32, TypeDenotationByte}[verifrt.Choose("den", 2)], c01Err)
+		case 15:
+			d.ReadBytesInPlace(make([]byte, verifrt.Choose("n", 4)), c01Err)
 		case 10: // a sequence of zero-width or 1-byte items: iterations must be bounded by the input
 			width := verifrt.Choose("itemWidth", 2)
 			d.ReadSequenceOfObjects(func(b []byte) (int, error) {
@@ -356,12 +370,101 @@ func H_C03_layout() {
 	}
 }
 
+// c03Fixed: the fixed-width readers on 32 / 8 arbitrary bytes. The re-encoding is compared with the input as it
+// was before the call and as the caller sees it afterwards (a decoder that rewrites its input makes the two differ).
+func c03Fixed(kind int) {
+	switch kind {
+	case 3:
+		b := verifrt.BytesN("b", 32)
+		before := append([]byte(nil), b...)
+		var v *big.Int
+		n, err := NewDeserializer(b).ReadUint256(&v, c01Err).Done()
+		verifrt.Assert(err == nil && n == 32, "ReadUint256 rejected 32 bytes")
+		enc, eerr := NewSerializer().WriteUint256(v, c01Err).Serialize()
+		verifrt.Assert(eerr == nil && bytes.Equal(enc, before), "re-encoding the uint256 read from 32 bytes differs from those bytes")
+		verifrt.Assert(bytes.Equal(b, before), "ReadUint256 modified its input: the caller's bytes differ from the re-encoding of the decoded value")
+		verifrt.Cover("uint256")
+	case 4:
+		b := verifrt.BytesN("b", 8)
+		before := append([]byte(nil), b...)
+		var t time.Time
+		n, err := NewDeserializer(b).ReadTime(&t, c01Err).Done()
+		verifrt.Assert(err == nil && n == 8, "ReadTime rejected 8 bytes")
+		enc, eerr := NewSerializer().WriteTime(t, c01Err).Serialize()
+		verifrt.Assert(eerr == nil && len(enc) == 8, "WriteTime failed")
+		if binary.LittleEndian.Uint64(before) <= math.MaxInt64 {
+			// inside the int64-nanosecond range: canonical
+			verifrt.Assert(bytes.Equal(enc, before), "a time stamp inside the int64-nanosecond range does not re-encode to the bytes it was read from")
+			verifrt.Cover("time")
+		} else {
+			verifrt.Cover("time-saturated")
+		}
+		verifrt.Assert(bytes.Equal(b, before), "ReadTime modified its input")
+	}
+}
+
+// H_C03_time: forward layout of time stamps: little-endian uint64 nanoseconds, negative times as 0.
+//
+//verif:h prop=C03 cover=positive,negative
+func H_C03_time() {
+	ns := verifrt.I64("ns")
+	enc, err := NewSerializer().WriteTime(time.Unix(0, ns), c01Err).Serialize()
+	verifrt.Assert(err == nil && len(enc) == 8, "WriteTime failed")
+	want := uint64(0)
+	if ns >= 0 {
+		want = uint64(ns)
+		verifrt.Cover("positive")
+	} else {
+		verifrt.Cover("negative")
+	}
+	verifrt.Assert(binary.LittleEndian.Uint64(enc) == want, "WriteTime does not produce the nanosecond count as a little-endian uint64 (0 for times before the epoch)")
+	// and the round trip (C01) for times inside the range
+	var back time.Time
+	n, derr := NewDeserializer(enc).ReadTime(&back, c01Err).Done()
+	verifrt.Assert(derr == nil && n == 8, "ReadTime(WriteTime(t)) failed")
+	if ns >= 0 {
+		verifrt.Assert(back.UnixNano() == ns, "ReadTime(WriteTime(t)) differs from t")
+	}
+}
+
+// H_C01_slicelen: the length prefix of every collection, for every length (symbolic) and prefix width: either an
+// error, or the prefix reads back as the same length and exactly the prefix is consumed.
+//
+//verif:h prop=C01 cover=byte,uint16,uint32,toolong
+func H_C01_slicelen() {
+	l := verifrt.Int("l")
+	verifrt.Assume(l >= 0)
+	k := verifrt.Choose("prefix", 3)
+	p := c01Prefixes[k]
+	limit := []int{math.MaxUint8, math.MaxUint16, math.MaxUint32}[k]
+	s := NewSerializer()
+	s.writeSliceLength(l, p, c01Err)
+	enc, err := s.Serialize()
+	if l > limit {
+		verifrt.Cover("toolong")
+		verifrt.Assert(err != nil, "a collection length that does not fit its length prefix was encoded (it wraps)")
+
+		return
+	}
+	verifrt.Cover([]string{"byte", "uint16", "uint32"}[k])
+	verifrt.Assert(err == nil && len(enc) == []int{1, 2, 4}[k], "a representable collection length was refused or has the wrong prefix width")
+	d := NewDeserializer(enc)
+	got, derr := d.readSliceLength(p, c01Err)
+	verifrt.Assert(derr == nil && got == l && d.offset == len(enc), "the length prefix does not read back as the length that was written")
+}
+
 // H_C03_canonical: whatever byte string the validating reader accepts re-encodes to exactly the consumed bytes.
 //
-//verif:h prop=C03 p.maxlen=4/6 cover=bool,slice,sequence,rejected steps=600000 runs=3000000 timeout=250/900
+//verif:h prop=C03 p.maxlen=4/6 cover=bool,slice,sequence,rejected,uint256,time,time-saturated steps=600000 runs=3000000 timeout=250/900
 func H_C03_canonical() {
+	kind := verifrt.Choose("kind", 5)
+	if kind >= 3 {
+		c03Fixed(kind)
+
+		return
+	}
 	b := verifrt.Bytes("b", verifrt.Param("maxlen", 4))
-	switch verifrt.Choose("kind", 3) {
+	switch kind {
 	case 0:
 		var v bool
 		n, err := NewDeserializer(b).ReadBool(&v, c01Err).Done()
